@@ -28,7 +28,7 @@ var extras = map[string][]func(c *Ctx){}
 // counters that must be > 0 after the extra families ran (vacuity guards)
 var extraRequire = map[string][]string{
 	"C07": {"cli_diff_collapse-length", "cli_diff_collapse-support", "cli_diff_collapse-depth", "cli_diff_resolve"},
-	"C05": {"cli_diff_reroot-midpoint", "cli_diff_unroot", "cli_diff_reroot-outgroup"},
+	"C05": {"cli_diff_reroot-midpoint", "cli_diff_unroot", "cli_diff_reroot-outgroup", "cli_diff_reroot-outgroup-multi"},
 	"C09": {"cli_diff_consensus"},
 	"C10": {"cli_diff_support-fbp", "cli_diff_support-tbe"},
 	"C08": {"cli_diff_compare-trees"},
@@ -282,6 +282,22 @@ func cliDiffC05(quick bool) []cliDiff {
 							}
 							return nwOf(t), false
 						}})
+						if len(og) == 2 && !viaFile && !strict {
+							// several trees in one file, the first one lacking one taxon of the outgroup: each tree is rooted on ITS members of the list
+							first := strings.Replace(txt, og[0]+":", "zz9:", 1)
+							f3 := map[string]string{"t.nw": first + "\n" + txt + "\n"}
+							ds = append(ds, cliDiff{"C05", "reroot-outgroup-multi", args, f3, fmt.Sprintf("per tree: RerootOutGroup(remove=%v, strict=false, %q) with a fresh list", rmv, og), func() (string, bool) {
+								var sb strings.Builder
+								for _, x := range []string{first, txt} {
+									t := gtMustParse(x)
+									if err := t.RerootOutGroup(rmv, false, append([]string{}, og...)...); err != nil {
+										return "", true
+									}
+									sb.WriteString(nwOf(t))
+								}
+								return sb.String(), false
+							}})
+						}
 					}
 				}
 			}
